@@ -537,6 +537,80 @@ func runC15(r *core.Run) {
 	c15AllBytes(r)
 	c15FanOut(r)
 	c15BufferReuse(r)
+	// The BFS below merges histories that reach the same trie (its state key is the JSON form). That is
+	// sound for state held IN the trie; state held beside it (a package-level hint about the last Add, a
+	// cache keyed by the last argument) is not part of the key, so two histories with equal keys may have
+	// different futures. Here every operation SEQUENCE up to a depth is executed on its own, unmerged.
+	type c15Seq struct {
+		Ops []core.S `json:"operations"`
+	}
+	seqOps := []string{"+", "+a", "+b", "+aa", "+ab", "+ba", "+bb", "-a", "-b", "-aa", "-ab", "-ba", "-bb"}
+	seqDepth := core.Pick(r, 5, 6)
+	seqProbes := enum.AllStrings("ab", 3)
+	r.Bound("all-operation-sequences", fmt.Sprintf("every sequence of 1..%d operations from %q (Add and Delete of every word over {a,b} up to length 2, Add of the empty word): %d sequences at the deepest level", seqDepth, seqOps, pow(len(seqOps), seqDepth)))
+	core.Clause(r, "all-operation-sequences", core.Opts{Rule: "every operation sequence up to the depth, each on a fresh trie next to the set model, NOT merged by reached state: every Delete result, then Has on all words up to length 3, the ForEach multiset and the JSON rebuild at the end of the sequence (every prefix is a sequence of its own); non-trivial = at least 2 operations"},
+		func(emit func(c15Seq) bool) {
+			for d := 1; d <= seqDepth; d++ {
+				idx := make([]int, d)
+				for {
+					ops := make([]core.S, d)
+					for i, x := range idx {
+						ops[i] = core.S(seqOps[x])
+					}
+					if !emit(c15Seq{ops}) {
+						return
+					}
+					i := d - 1
+					for i >= 0 {
+						idx[i]++
+						if idx[i] < len(seqOps) {
+							break
+						}
+						idx[i] = 0
+						i--
+					}
+					if i < 0 {
+						break
+					}
+				}
+			}
+		},
+		func(c c15Seq) core.Outcome {
+			var fail string
+			p := catch(func() {
+				t := trie.New()
+				m := ref.TrieSet{}
+				for i, op := range c.Ops {
+					if f := applyTrieOp(t, m, string(op)); f != "" {
+						fail = fmt.Sprintf("operation %d of %q: %s", i+1, c.Ops, f)
+						return
+					}
+				}
+				if f := observeTrie(t, m, seqProbes, fmt.Sprintf("after %q", c.Ops)); f != "" {
+					fail = f
+					return
+				}
+				js, f := trieKey(t)
+				if f != "" {
+					fail = f
+					return
+				}
+				back := trie.New()
+				if err := json.Unmarshal([]byte(js), back); err != nil {
+					fail = fmt.Sprintf("after %q: UnmarshalJSON(%s): %v", c.Ops, js, err)
+					return
+				}
+				fail = observeTrie(back, m, seqProbes, fmt.Sprintf("trie rebuilt from the JSON form %s after %q", js, c.Ops))
+			})
+			if p != "" {
+				return core.Failf("operations %q: panic: %s", c.Ops, p)
+			}
+			if fail != "" {
+				return core.Failf("%s", fail)
+			}
+			return core.Outcome{Class: fmt.Sprint("ops=", len(c.Ops)), Nontrivial: len(c.Ops) >= 2, Evals: len(c.Ops) + 3}
+		})
+
 	type cfg struct {
 		sigma string
 		d     int
@@ -601,4 +675,12 @@ func runC15(r *core.Run) {
 		r.Bound(name, fmt.Sprintf("states=%d transitions=%d max_depth=%d complete=%v", stats.States, stats.Transitions, stats.MaxDepth, stats.Complete))
 		m.End(stats.States, stats.Transitions)
 	}
+}
+
+func pow(b, e int) int {
+	out := 1
+	for i := 0; i < e; i++ {
+		out *= b
+	}
+	return out
 }
